@@ -3,10 +3,14 @@
 package checks
 
 import (
+	"bytes"
 	"context"
 	"encoding/json"
 	"fmt"
+	"os"
+	"path/filepath"
 	"reflect"
+	"time"
 
 	"github.com/facebookincubator/tacquito/cmds/server/config"
 	jsonloader "github.com/facebookincubator/tacquito/cmds/server/loader/json"
@@ -33,7 +37,7 @@ func init() {
 					"without groups and authenticator; authenticator options with a key removed; secrets shrunk and reordered; syntactically invalid; valid but no users; valid but no secrets. All sequences of length <= %d are fed to ONE loader object. "+
 					"After every load: a successful load must publish a value reflect.DeepEqual to what a freshly constructed loader publishes for the same document; every value published earlier must still equal the deep copy taken when it was published; "+
 					"a failing load must publish nothing; when a failing document is fed before the consumer collected the previously published value, that value must still be delivered unchanged. Each published value is also handed to a real loader.Loader behind the full server and the outcome of (a) a connection from an address only prefix_deny blocks and (b) a command authorization "+
-					"only the administrator holds must be what the last good document says. distinct_nontrivial = distinct sequences with at least two different successful documents", d),
+					"only the administrator holds must be what the last good document says. File plane: ONE path rewritten <= 3 (4) times over {document A, A with one rule flipped (same length), another document, unparsable text} x {modification time moves on, modification time pinned} and reloaded with Load(path) after every rewrite: what is published equals what a fresh loader publishes for the file as it is now. distinct_nontrivial = distinct sequences with at least two different successful documents", d),
 				Assumptions: []string{"documents are produced by marshalling config values with the repository's struct tags (omitempty drops the optional keys)"}}
 		},
 		Workers: constInt(16, 16),
@@ -46,6 +50,121 @@ type c16Case struct {
 	Format string `json:"format"`
 	Seq    []int  `json:"documents"`
 	Lazy   int    `json:"lazy_collect_before_step,omitempty"` // 1-based index of the failing step fed before the previous value was collected
+	// Files: the documents are written to ONE path and loaded with Load(path) (file plane)
+	Files []c16FileOp `json:"file_ops,omitempty"`
+}
+
+// c16FileOp rewrites the configuration file with one of four texts (0: document A, 1: A with one rule flipped, same
+// length; 2: another document; 3: text that fails to parse) and either moves its modification time on or leaves it pinned
+// (deployment that preserves timestamps, or two saves within the timestamp granularity), then reloads.
+type c16FileOp struct {
+	Text      int  `json:"text"`
+	SameMtime bool `json:"same_mtime"`
+}
+
+func c16FileTexts(format string, docs []config.ServerConfig) [][]byte {
+	twin := deepCopyCfg(docs[0])
+	flipped := false
+	for i := range twin.Users {
+		for j := range twin.Users[i].Commands {
+			if !flipped && twin.Users[i].Commands[j].Action == config.PERMIT {
+				twin.Users[i].Commands[j].Action = config.DENY
+				flipped = true
+			}
+		}
+	}
+	twinDocs := []config.ServerConfig{twin}
+	a, b := c16Text(format, 0, docs), c16Text(format, 0, twinDocs)
+	if !flipped || len(a) != len(b) || bytes.Equal(a, b) {
+		panic("C16 generator: the twin document must differ from document 0 and have its length")
+	}
+	return [][]byte{a, b, c16Text(format, 1, docs), c16Text(format, 9, docs)}
+}
+
+type c16FileLoader interface {
+	c16Loader
+	Load(path string) error
+}
+
+// loadFile is loadOnce through Load(path).
+func loadFile(l c16FileLoader, path string) (*config.ServerConfig, error) {
+	done := make(chan error, 1)
+	go func() { done <- l.Load(path) }()
+	var got *config.ServerConfig
+	for {
+		select {
+		case c := <-l.Config():
+			cc := c
+			got = &cc
+		case err := <-done:
+			select {
+			case c := <-l.Config():
+				cc := c
+				got = &cc
+			default:
+			}
+			return got, err
+		}
+	}
+}
+
+// c16Files: one loader instance reloads one path whose content and modification time the environment decides; after
+// every reload it must have published what a fresh loader publishes for the file as it is now.
+func c16Files(c *Ctx, format string, ops []c16FileOp, docs []config.ServerConfig) {
+	c.R.Eval()
+	cs := c16Case{Format: format, Files: ops}
+	c.Cur(cs)
+	fail := func(kind, what string) {
+		c.R.ViolateMin(format+"/file/"+kind, fmt.Sprintf("%s; %s file operations %+v", what, format, ops), cs, len(ops))
+	}
+	texts := c16FileTexts(format, docs)
+	dir, err := os.MkdirTemp(os.Getenv("VERIF_WORK"), "c16f")
+	if err != nil {
+		panic(err)
+	}
+	defer os.RemoveAll(dir)
+	path := filepath.Join(dir, "tacquito."+format)
+	t0 := time.Date(2024, 5, 1, 12, 0, 0, 0, time.UTC)
+	l := newC16Loader(format).(c16FileLoader)
+	distinctTexts := map[int]bool{}
+	for step, op := range ops {
+		if err := os.WriteFile(path, texts[op.Text], 0o644); err != nil {
+			panic(err)
+		}
+		mt := t0
+		if !op.SameMtime {
+			mt = t0.Add(time.Duration(step+1) * time.Second)
+		}
+		if err := os.Chtimes(path, mt, mt); err != nil {
+			panic(err)
+		}
+		got, err := loadFile(l, path)
+		want, werr := loadFile(newC16Loader(format).(c16FileLoader), path)
+		c.R.Trans(1)
+		if want == nil || werr != nil {
+			if got != nil {
+				fail("published-on-failure", fmt.Sprintf("step %d: the file fails to load on a fresh loader but a value was published here (err=%v)", step, err))
+				return
+			}
+			if err == nil {
+				fail("no-error", fmt.Sprintf("step %d: the file loads without error here but fails on a fresh loader", step))
+				return
+			}
+			continue
+		}
+		distinctTexts[op.Text] = true
+		if err != nil || got == nil {
+			fail("reload-fails", fmt.Sprintf("step %d: the file loads on a fresh loader but not here (err=%v)", step, err))
+			return
+		}
+		if !reflect.DeepEqual(*got, *want) {
+			fail("differs-from-fresh", fmt.Sprintf("step %d: the configuration published after reloading the file differs from what a fresh loader publishes for it: %s", step, cfgDiff(*got, *want)))
+			return
+		}
+	}
+	if len(distinctTexts) >= 2 {
+		c.R.Distinct(evid.Hash(format, "files", fmt.Sprint(ops)))
+	}
 }
 
 func c16Docs() []config.ServerConfig {
@@ -86,18 +205,6 @@ func c16Docs() []config.ServerConfig {
 		mod(func(c *config.ServerConfig) { c.Secrets = nil }),
 		mod(func(c *config.ServerConfig) { c.Secrets = []config.SecretConfig{s1} }),
 	}
-}
-
-func deepCopyCfg(c config.ServerConfig) config.ServerConfig {
-	b, err := json.Marshal(c)
-	if err != nil {
-		panic(err)
-	}
-	var out config.ServerConfig
-	if err := json.Unmarshal(b, &out); err != nil {
-		panic(err)
-	}
-	return out
 }
 
 func c16Text(format string, i int, docs []config.ServerConfig) []byte {
@@ -382,6 +489,21 @@ func c16Run(c *Ctx) {
 				}
 			})
 		}
+		// file plane: every sequence of <= 3 (4) rewrites of one path over 4 texts x {modification time moves on, pinned}
+		fdepth := tierPick(c.Quick, 3, 4)
+		for n := 1; n <= fdepth; n++ {
+			enum.Explore(enum.Opts{MaxDev: -1, ShardDepth: 1, ShardK: c.K, ShardN: c.N}, func(ch *enum.C) {
+				ops := make([]c16FileOp, n)
+				for i := range ops {
+					k := ch.Choose(8)
+					ops[i] = c16FileOp{Text: k / 2, SameMtime: k%2 == 1}
+				}
+				if c.Expired() {
+					return
+				}
+				c16Files(c, format, ops, docs)
+			})
+		}
 	}
 }
 
@@ -391,6 +513,10 @@ func c16Replay(c *Ctx, raw json.RawMessage) {
 		panic(err)
 	}
 	docs := c16Docs()
+	if len(cs.Files) > 0 {
+		c16Files(c, cs.Format, cs.Files, docs)
+		return
+	}
 	fresh := map[int]*config.ServerConfig{}
 	for i := range docs {
 		got, err := loadOnce(newC16Loader(cs.Format), c16Text(cs.Format, i, docs))
